@@ -1128,7 +1128,12 @@ func (h *sentPacketHandler) MigratedPath(now monotime.Time, initialMaxDatagramSi
 			}
 		}
 	}
+	// RemovePathProbe cannot be called while iterating.
+	var pathProbes []protocol.PacketNumber
 	for pn := range h.appDataPackets.history.PathProbes() {
+		pathProbes = append(pathProbes, pn)
+	}
+	for _, pn := range pathProbes {
 		h.appDataPackets.history.RemovePathProbe(pn)
 	}
 	h.congestion = congestion.NewCubicSender(
